@@ -13,6 +13,7 @@ import (
 
 	"github.com/golang/snappy"
 	"github.com/nsqio/nsq/internal/auth"
+	"github.com/nsqio/nsq/internal/verif"
 )
 
 const defaultBufferSize = 16 * 1024
@@ -416,6 +417,7 @@ func (p *prettyConnectionState) GetVersion() string {
 
 func (c *clientV2) IsReadyForMessages() bool {
 	if c.Channel.IsPaused() {
+		verif.Ev("KEval", "k", c.ID, "ready", false, "rdy", atomic.LoadInt64(&c.ReadyCount), "inflight", atomic.LoadInt64(&c.InFlightCount), "paused", true)
 		return false
 	}
 
@@ -425,14 +427,18 @@ func (c *clientV2) IsReadyForMessages() bool {
 	c.nsqd.logf(LOG_DEBUG, "[%s] state rdy: %4d inflt: %4d", c, readyCount, inFlightCount)
 
 	if inFlightCount >= readyCount || readyCount <= 0 {
+		verif.Ev("KEval", "k", c.ID, "ready", false, "rdy", readyCount, "inflight", inFlightCount, "paused", false)
 		return false
 	}
 
+	verif.Ev("KEval", "k", c.ID, "ready", true, "rdy", readyCount, "inflight", inFlightCount, "paused", false)
 	return true
 }
 
 func (c *clientV2) SetReadyCount(count int64) {
+	verif.Ev("KRdyBegin", "k", c.ID, "n", count)
 	oldCount := atomic.SwapInt64(&c.ReadyCount, count)
+	verif.Ev("KRdyEnd", "k", c.ID, "n", count)
 
 	if oldCount != count {
 		c.tryUpdateReadyState()
@@ -457,6 +463,7 @@ func (c *clientV2) FinishedMessage() {
 
 func (c *clientV2) Empty() {
 	atomic.StoreInt64(&c.InFlightCount, 0)
+	verif.Ev("KEmpty", "k", c.ID)
 	c.tryUpdateReadyState()
 }
 
